@@ -21,6 +21,10 @@ pub struct T2Spec {
     /// copy of the base file is put next to it under that name first
     #[serde(default, skip_serializing_if = "Option::is_none")]
     pub raw_base_name: Option<String>,
+    /// standard output of the CLI cannot be written to: "full" (ENOSPC on every write, as on a full
+    /// disk) or "closed" (the reader of the pipe has gone away: EPIPE)
+    #[serde(default, skip_serializing_if = "Option::is_none")]
+    pub stdout_fault: Option<String>,
 }
 
 #[derive(Clone, Debug, Serialize, Deserialize)]
